@@ -1,7 +1,8 @@
 (* C14 — Unconfirmed pool: one consistent chain per account (the concurrency clause is a runtime statement and is
    explored by the harness under the race detector, not proved).
    Only statements; each is closed by a lemma proved in theories/PoolProofs.v. *)
-From ZV Require Import Prelude GoSem Pool PoolProofs.
+From ZV Require Import Prelude GoSem Pool PoolProofs PoolOrderProofs.
+From Coq Require Import Permutation.
 From ZV.gen Require Import Consts.
 Open Scope Z_scope.
 
@@ -222,6 +223,51 @@ Example C14_replace_example :
   let a := mkAcct [b3; b2; g1] 1 in
   wf a /\ add false a c2 = (mkAcct [c2; g1] 1, ROk) /\ snd (add false (mkAcct [c2; g1] 1) b2) = RErrRatio.
 Proof. cbv zeta. split; [|split; vm_compute; reflexivity]. unfold wf. cbn. repeat split; lia. Qed.
+
+(* "the same rule ON EVERY NODE": competitors for one height of a user account (base plasma positive, under the cap),
+   all on the same parent, reach a node one after the other without force - by the pool call, rpc publish or gossip,
+   every entry ends in addAccountBlockTransaction(forceAdd = false). Two nodes (or one node, replayed) that hold the same
+   pooled chain [above ++ t :: below] and receive the same competitors cs for the height of t in DIFFERENT ORDERS end in
+   the same state; the block of the contested height is the one candidate among t and cs that wins against every other
+   one (highest ratio, then smallest hash); if that is t nothing changed, otherwise it sits directly on [below] and what
+   was built on t is gone *)
+Theorem C14_competitors_order_independent : forall a above t below cs cs',
+  wf a -> no_sends a -> rchain a = above ++ t :: below -> (sh a <= length below)%nat -> Z.of_nat (length (rchain a)) < two63 ->
+  Forall (competitor_of below t) cs -> Forall capped (t :: cs) -> NoDup (map bhash (t :: cs)) -> Permutation cs cs' ->
+  let w := champion t cs in
+  run a (map (OAdd false) cs') = run a (map (OAdd false) cs) /\
+  In w (t :: cs) /\ (forall y, In y (t :: cs) -> bhash y <> bhash w -> wins w y) /\
+  exists above', rchain (run a (map (OAdd false) cs)) = above' ++ w :: below /\
+                 (bhash w = bhash t -> above' = above /\ w = t) /\ (bhash w <> bhash t -> above' = []).
+Proof. exact competitors_order_independent. Qed.
+(* under the cap and with positive base plasma the rule is a strict total order on blocks with different hashes *)
+Theorem C14_priority_transitive : forall a b c, capped a -> capped b -> capped c -> wins a b -> wins b c -> wins a c.
+Proof. exact wins_trans. Qed.
+(* non-vacuity: pooled b2 (with b3 on it) and three competitors for its height, two with the same best ratio: both
+   arrival orders of the equal pair end with the smaller hash 55, directly on g1 *)
+Example C14_equal_ratio_competitors_both_orders :
+  let g1 := mkBlock 11 0 1 21000 21000 false in
+  let b2 := mkBlock 22 11 2 21000 21000 false in
+  let b3 := mkBlock 33 22 3 21000 21000 false in
+  let c1 := mkBlock 77 11 2 42000 21000 false in
+  let c2 := mkBlock 55 11 2 42000 21000 false in
+  let c3 := mkBlock 44 11 2 30000 21000 false in
+  let a := mkAcct [b3; b2; g1] 1 in
+  wf a /\ no_sends a /\ Forall (competitor_of [g1] b2) [c1; c2; c3] /\ Forall capped [b2; c1; c2; c3] /\
+  champion b2 [c1; c2; c3] = c2 /\
+  run a (map (OAdd false) [c1; c2; c3]) = mkAcct [c2; g1] 1 /\ run a (map (OAdd false) [c2; c3; c1]) = mkAcct [c2; g1] 1.
+Proof.
+  cbv zeta. split; [unfold wf; cbn; repeat split; lia|]. split; [repeat constructor|].
+  split; [repeat constructor|]. split; [repeat constructor; unfold MaxPlasmaForAccountBlock; cbn; lia|].
+  repeat split; vm_compute; reflexivity.
+Qed.
+(* the hypothesis "base plasma positive" is needed: with a block of base plasma 0 among others the rule runs in a circle
+   (1/1 beats 0/0 by hash, 0/0 beats 2/1 by hash, 2/1 beats 1/1 by ratio). It does not arise: contract receives are all
+   0/0 (the hash alone decides among them), user blocks have at least the base plasma of an empty block *)
+Example C14_priority_cycle_with_zero_base :
+  let x := mkBlock 1 0 2 1 1 false in let y := mkBlock 2 0 2 0 0 false in let z := mkBlock 3 0 2 2 1 false in
+  wins x y /\ wins y z /\ wins z x.
+Proof. cbv zeta. repeat split; vm_compute; reflexivity. Qed.
 
 (* the rule the theorems above are about is the code: [higher_priority] equals chain.higherPriority as translated from
    chain/account_pool.go by go2coq on every run (uint64 products with wrap; bytes.Compare of the hashes as its result) *)
